@@ -200,13 +200,14 @@ type Sess struct {
 	NVal  int // counter for unique values
 	Steps int
 	// options
-	SkipStructure bool
-	BaseName      string
-	quietPanic    bool   // do not report panics to PanicSink (the caller turns the returned error into its own violation)
-	History       []Op   // letters applied so far (for panic reports)
-	Panicked      string // non-empty once an API call panicked
-	RotateSeed    bool   // every Open is given a different (deterministic) answer should it draw a fresh hash seed
-	nOpen         int
+	SkipStructure  bool
+	FixedBackupDir string
+	BaseName       string
+	quietPanic     bool   // do not report panics to PanicSink (the caller turns the returned error into its own violation)
+	History        []Op   // letters applied so far (for panic reports)
+	Panicked       string // non-empty once an API call panicked
+	RotateSeed     bool   // every Open is given a different (deterministic) answer should it draw a fresh hash seed
+	nOpen          int
 	// observations of the last Apply
 	LastCompact    pogreb.CompactionResult
 	ReopenLogStart int // log index at which the Open of the last Reopen started
@@ -336,6 +337,9 @@ func (s *Sess) apply(o Op) error {
 	case Backup:
 		s.NBackup++
 		s.LastBackup = fmt.Sprintf("bak%d", s.NBackup)
+		if s.FixedBackupDir != "" {
+			s.LastBackup = s.FixedBackupDir // every backup goes to the same directory
+		}
 		return s.DB.Backup(s.LastBackup)
 	case Sync:
 		return s.DB.Sync()
